@@ -48,7 +48,9 @@ func init() {
 			c.ClampTestsItself(ob7, relInterp)
 			obSign(c, "C03.8")
 			ob0 := c.R.Ob("C03.0", "roles", "the interpreter's money roles are found in the code", 0)
-			obApplyPostings(c, "C03.9", c.Roles(ob0))
+			r03 := c.Roles(ob0)
+			obApplyPostings(c, "C03.9", r03)
+			obGate(c, "C03.10", r03)
 			ob5 := c.R.Ob("C03.5", "ctrl/negative", "only strictly negative amounts are rejected: a send of 0 goes through", 2)
 			c.NegativeTestStrict(ob5, "NegativeAmountErr")
 		},
@@ -68,6 +70,10 @@ func init() {
 			obPending(c, "C04.5c", r)
 			obPendingScan(c, "C04.5d", r)
 			obReaderUnaltered(c, "C04.5e", r)
+			obCacheOwners(c, "C04.5f", r)
+			obClampGrant(c, "C04.5g", r)
+			ob5h := c.R.Ob("C04.5h", "ctrl/world-by-name", "a draw helper recognises @world on the evaluated account name (the one it queues as sender), not on the syntax of the expression", 1)
+			c.WorldRecognisedByName(ob5h, r)
 			obSign(c, "C04.6")
 			ob7 := c.R.Ob("C04.7", "ctrl/clamp-self", "an amount is clamped to zero only under a sign test of that very amount", 2)
 			c.ClampTestsItself(ob7, relInterp)
@@ -155,6 +161,7 @@ func init() {
 			obCacheMergeOnly(c, "C09.4b")
 			obBatchAlways(c, "C09.4c")
 			obSaveMonotone(c, "C09.5", r)
+			obEvalReadOnly(c, "C09.6")
 		},
 	}
 }
